@@ -27,7 +27,7 @@ ANCHORS = [
 NAMED = ["sum", "prod", "any", "all", "max", "min", "mean", "argmax", "argmin"]
 NEEDS_NONEMPTY = {"max", "min", "mean", "argmax", "argmin", "maximum", "minimum"}
 UFUNCS = ["add", "multiply", "logical_and", "logical_or", "logical_xor", "bitwise_and", "bitwise_or", "bitwise_xor", "maximum", "minimum"]
-MODES = ["method", "np", "ufunc.reduce", "axisNone", "keepdims", "np-keepdims", "ufunc-keepdims", "axis1", "np-positional", "axis-npint", "reduce-kwargs", "explicit-defaults"]
+MODES = ["method", "np", "ufunc.reduce", "axisNone", "keepdims", "np-keepdims", "ufunc-keepdims", "axis1", "np-positional", "axis-npint", "reduce-kwargs", "explicit-defaults", "axisNone-keepdims"]
 FLOOR_TAGS = ["recv:" + r for r in c02.RECVS] + ["mode:" + m for m in MODES] + ["f:" + f for f in NAMED + UFUNCS] + ["kind:b", "kind:i", "kind:u", "kind:f", "norows", "allempty", "e-first", "e-last", "e-mid", "e-consec", "e-none", "trailing-run"]
 FLOOR_MONITORS = ["c05:compare", "c05:identity-for-empty-row"]
 N_RANDOM = {"quick": 36000, "thorough": 500000}
@@ -41,7 +41,44 @@ def mk_case(lens, dtype, vals, mode, name, vclass="small", recv="fresh"):
     return {"lens": list(lens), "dtype": np.dtype(dtype).name, "vals": vals, "mode": mode, "name": name, "vclass": vclass, "recv": recv}
 
 
+def run_big(case):
+    """a few rows of millions of elements given by a formula (every element the largest value of a 32-bit / 16-bit type, or alternating): integer row
+    sums are exact in numpy (64-bit accumulation), whatever the number of terms"""
+    RA = CTX.lib.RaggedArray
+    lens, name, dt = case["lens"], case["name"], np.dtype(case["dtype"])
+    tot = sum(lens)
+    tags = ["mode:big-formula", "f:" + name, "kind:" + dt.kind]
+    ii = np.iinfo(dt)
+    flat = np.full(tot, ii.max, dtype=dt)
+    if case.get("pattern") == "alternate" and ii.min < 0:
+        flat[1::2] = ii.min
+    elif case.get("pattern") == "min" and ii.min < 0:
+        flat[:] = ii.min
+    ra = RA(flat.copy(), list(lens))
+    rows = gen.split_rows(flat, lens)
+    if name == "mean":
+        exp = np.array([float(int(np.sum(r, dtype=np.int64 if dt.kind == "i" else np.uint64))) / len(r) if len(r) else float("nan") for r in rows])
+        a = attempt(lambda: ra.mean(axis=-1))
+    else:
+        exp = np.array([np.sum(r) for r in rows] + [np.sum(flat[:0])])[:len(rows)]
+        a = attempt(lambda: ra.sum(axis=-1) if name == "sum" else np.add.reduce(ra, axis=-1))
+    CTX.tick("c05:compare", True)
+    desc = "%s on %s rows of lengths %s, elements %s" % (name, dt, lens, case.get("pattern", "max"))
+    if not a.ok:
+        return violated("%s raised %r" % (desc, a), tags)
+    g = np.asarray(a.value)
+    if g.shape != exp.shape:
+        return violated("%s has shape %s" % (desc, g.shape), tags)
+    sel = [i for i, l in enumerate(lens) if l > 0] if name == "mean" else list(range(len(lens)))
+    ok = all((abs(float(g[i]) - float(exp[i])) <= 1e-9 * abs(float(exp[i]))) if name == "mean" else (int(g[i]) == int(exp[i])) for i in sel)
+    if not ok:
+        return violated("%s gives %s, numpy per row gives %s" % (desc, short(g, 160), short(exp, 160)), tags, got=g, expected=exp)
+    return held(tags, True)
+
+
 def run(case):
+    if case.get("big"):
+        return run_big(case)
     RA = CTX.lib.RaggedArray
     lens, mode, name = case["lens"], case["mode"], case["name"]
     dt = np.dtype(case["dtype"])
@@ -63,9 +100,18 @@ def run(case):
         f_flat = per_row
     nontrivial = n >= 2 and (0 in lens or tot >= 2)
 
-    if mode == "axisNone":
+    if mode in ("axisNone", "axisNone-keepdims"):
         o = attempt(f_flat, flat)
-        a = attempt(lambda: getattr(ra, name)()) if len(case["vals"]) % 2 == 0 else attempt(lambda: f_np(ra))
+        if mode == "axisNone-keepdims":
+            # both options in one call: whatever shape comes back (numpy: one row, one column), it holds the SAME NUMBER as the reduction over all elements
+            a = attempt(lambda: getattr(ra, name)(axis=None, keepdims=True)) if len(case["vals"]) % 2 == 0 else attempt(lambda: f_np(ra, axis=None, keepdims=True))
+            if a.ok:
+                v_ = np.asarray(a.value)
+                if v_.size != 1:
+                    return violated("%s(axis=None, keepdims=True) on %s rows %s returned %s values" % (name, dt, short([r.tolist() for r in rows], 160), v_.size), tags)
+                a.value = v_.reshape(())
+        else:
+            a = attempt(lambda: getattr(ra, name)()) if len(case["vals"]) % 2 == 0 else attempt(lambda: f_np(ra))
         if not o.ok:
             return undefined("numpy raises for the flat reduction: %r" % o, tags)
         CTX.tick("c05:compare", tot > 0)
@@ -181,7 +227,7 @@ def gen_case(rng, lens, dtype, vclass, mode=None, name=None, recv="fresh"):
     if name is None:
         if mode.startswith("ufunc") or mode == "reduce-kwargs":
             name = rng.choice(UFUNCS)
-        elif mode == "axisNone":
+        elif mode in ("axisNone", "axisNone-keepdims"):
             name = rng.choice(["sum", "prod", "any", "all", "max", "min", "mean"])
         else:
             name = rng.choice(NAMED)
@@ -191,6 +237,13 @@ def gen_case(rng, lens, dtype, vclass, mode=None, name=None, recv="fresh"):
 def directed():
     import random
     rng = random.Random(505)
+    # rows of millions of 32-bit / 16-bit / 8-bit integers of the largest magnitude: totals beyond 2**53 (exact in 64-bit integers, not in doubles)
+    for dtype, lens in (("int32", [3, 6000001, 0, 2]), ("uint32", [2500000, 0, 4300000]), ("int32", [5000003, 1]), ("int16", [70001, 3]), ("uint8", [300000, 0, 7])):
+        for name in ("sum", "add", "mean"):
+            for pattern in ("max", "min", "alternate"):
+                if pattern != "max" and (dtype.startswith("u") or name == "mean"):
+                    continue
+                yield {"big": True, "lens": lens, "dtype": dtype, "name": name, "pattern": pattern}
     shapes = [[], [0], [0, 0, 0], [3], [0, 2, 3], [2, 3, 0], [2, 0, 3], [2, 0, 0, 3], [1, 0, 0], [3, 2, 0, 0, 0], [0, 0, 2], [2, 2], [0, 12, 1], [1, 1, 1]]
     for lens in shapes:
         for dtype in ["int64", "uint8", "bool", "float64", "int8", "uint64", "float32"]:
